@@ -60,7 +60,10 @@ func (m *Manager) SyncLoop(ctx context.Context, errCh chan<- error) {
 			m.handleEmptyDataHash(ctx, &header.Header)
 
 			if err = m.trySyncNextBlock(ctx, daHeight); err != nil {
-				errCh <- fmt.Errorf("failed to sync next block: %w", err)
+				select {
+				case errCh <- fmt.Errorf("failed to sync next block: %w", err):
+				default: // an error is already pending, only the first one is propagated
+				}
 				return
 			}
 
@@ -101,7 +104,10 @@ func (m *Manager) SyncLoop(ctx context.Context, errCh chan<- error) {
 
 			err = m.trySyncNextBlock(ctx, daHeight)
 			if err != nil {
-				errCh <- fmt.Errorf("failed to sync next block: %w", err)
+				select {
+				case errCh <- fmt.Errorf("failed to sync next block: %w", err):
+				default: // an error is already pending, only the first one is propagated
+				}
 				return
 			}
 			m.dataCache.SetSeen(dataHash)
